@@ -89,12 +89,12 @@ def run(ctx, report: Report) -> None:
                          f'match_lang tests `{b}` by truthiness in `{unparse(test)[:70]}`; `{b}` is None for "nothing found" but '
                          f'may legitimately be the empty string (lang=""), which this test confuses with "nothing found"')
 
-    r2 = report.rule('C13-R2', 'the <meta> memo is transparent', floor=4)
+    r2 = report.rule('C13-R2', 'the <meta> memo is transparent', floor=7)
     from .sem import lang_memo_table
     lang_memo_table(ctx, r2)
 
     # ---- R3 ----------------------------------------------------------------------------------------------
-    r3 = report.rule('C13-R3', 'the walk stays inside the element\'s own document', floor=2)
+    r3 = report.rule('C13-R3', 'the walk stays inside the element\'s own document', floor=3)
     from .sem import iframe_policy
     from ..interp import Obj
     from ..tables import el_obj
@@ -106,7 +106,7 @@ def run(ctx, report: Report) -> None:
                   self_fields={'cached_meta_lang': [], 'root': el_obj('html'), 'has_html_namespace': False}, first_only=False)
 
     # ---- R4 ----------------------------------------------------------------------------------------------
-    r4 = report.rule('C13-R4', 'range list tokenised and decoded like its sibling', floor=2)
+    r4 = report.rule('C13-R4', 'range list tokenised and decoded like its sibling', floor=1)
     pmod, pl = src.func('css_parser.CSSParser.parse_pseudo_lang')
     flow = StrFlow(src, pmod, pl, 'CSSParser')
     for c in [n for n in walk_no_nested(pl) if isinstance(n, ast.Call) and src.resolve_class_ref(pmod, n.func) == 'css_types.SelectorLang']:
